@@ -5,7 +5,7 @@
 // built as a real switch block and a real frame is sent; stage T: converged
 // meshes (C09's world), ping-pong between all ordered pairs, repeated after
 // link churn and after ticks of the routers' periodic workers
-// (housekeeping.go). Every link
+// (housekeeping.go), and in meshes with lite / stub routers (modes.go). Every link
 // crossing is recorded (TTL, byte diff outside TTL / flow flags / switch
 // block) and judged by TLC (Forwarding_Trace).
 package main
@@ -175,6 +175,7 @@ type batch struct {
 	events []any
 	desc   []map[string]any
 	starts []int
+	repro  []func(why string) bool // optional, one per run: re-executes the run from scratch and says whether `why` happened again
 }
 
 func (b *batch) add(r *recorder, desc map[string]any) {
@@ -217,6 +218,8 @@ func (b *batch) validate(c *vf.Ctx, label string) {
 		why = "answered-by-wrong-router"
 	case "end":
 		why = "no-reply"
+	case "refused":
+		why = "request-not-sent"
 	}
 	// context: the events of that run up to the failing one
 	from := b.starts[ri]
@@ -224,8 +227,25 @@ func (b *batch) validate(c *vf.Ctx, label string) {
 	if len(ctx) > 60 {
 		ctx = ctx[len(ctx)-60:]
 	}
-	c.Violation(vf.Key(why, b.desc[ri]["kind"]), fmt.Sprintf("run %v: event %v violates the forwarding rules (%s)", b.desc[ri], ev, why),
-		map[string]any{"run": b.desc[ri], "events": ctx}, nil)
+	// name the request a reply / end / refusal belongs to
+	about := ""
+	switch kind {
+	case "reply", "end":
+		for _, e := range b.events[from:idx] {
+			if om, ok := e.(map[string]any); ok && om["ev"] == "originate" && om["id"] == ev["id"] {
+				about = fmt.Sprintf(" - the request of router %v to router %v (claimed converged: %v)", om["src"], om["dst"], om["conv"])
+			}
+		}
+	case "refused":
+		about = fmt.Sprintf(" - the request of router %v to router %v never left its origin: %v", ev["src"], ev["dst"], ev["err"])
+	}
+	var reproduce func() bool
+	if ri < len(b.repro) && b.repro[ri] != nil {
+		fn := b.repro[ri]
+		reproduce = func() bool { return fn(why) }
+	}
+	c.Violation(vf.Key(why, b.desc[ri]["kind"]), fmt.Sprintf("run %v: event %v violates the forwarding rules (%s)%s", b.desc[ri], ev, why, about),
+		map[string]any{"run": b.desc[ri], "events": ctx}, reproduce)
 }
 
 func drain(ms *mesh.Mesh, max int) int {
@@ -235,7 +255,7 @@ func drain(ms *mesh.Mesh, max int) int {
 func main() { vf.Main("C10", "model_checking", run) }
 
 func run(c *vf.Ctx) {
-	c.Rule("M: TLC exhaustive: complete graph on 4 routers, all 81 next-hop functions towards an absent destination (cyclic and inconsistent ones included) x 4 sources x TTL 1..5, and all label-switched walks of 2..4 routers x TTL 1..5. R: every TLC behaviour realised on real routers (routes installed with AddRoute, switch blocks built with BuildBlocks, real frames sent with the chosen TTL). T: converged meshes (5..12 routers, 5 families), ping-pong between all ordered pairs, again after link churn and again after the routers' periodic workers (routing table / connection state / ping handler / session cleaners) ticked on some or all routers. distinct = distinct (behaviour / mesh, pair)")
+	c.Rule("M: TLC exhaustive: complete graph on 4 routers, all 81 next-hop functions towards an absent destination (cyclic and inconsistent ones included) x 4 sources x TTL 1..5, and all label-switched walks of 2..4 routers x TTL 1..5. R: every TLC behaviour realised on real routers (routes installed with AddRoute, switch blocks built with BuildBlocks, real frames sent with the chosen TTL). T: converged meshes (5..12 routers, 5 families), ping-pong between all ordered pairs, again after link churn and again after the routers' periodic workers (routing table / connection state / ping handler / session cleaners) ticked on some or all routers; converged meshes whose routers run in rarely used modes (router.lite / router.stub: lite leaves behind a relay with one full peer, lite leaves on the core, stub-configured leaves and relays, relays with only lite peers, lite relays, random mixtures; late joiners), where a pair is claimed when the tables lead from a to b and back, a lite router without an entry forwarding through any table entry that is not a dead end by the documented rule (modes.go). distinct = distinct (behaviour / mesh, pair)")
 	c.Assume("virtual links deliver synchronously, one frame at a time (queue drops under load are outside the property)", "frame identity on its way = type, nonce, sequence field, source and destination bytes")
 
 	mc, err := c.TLC("Forwarding", "Forwarding_MC.cfg", vf.TLCOpts{Workers: 8, Timeout: 10 * time.Minute})
@@ -722,6 +742,9 @@ func run(c *vf.Ctx) {
 	c.Extra("housekeeping_runs", map[string]int{"no_route_removed": hkSame, "routes_removed_claim_by_tables": hkChanged})
 	c.Logf("T housekeeping: %d runs in which the tables kept their routes (every pair asked before is asked again), %d in which routes were removed (pairs claimed by the tables)", hkSame, hkChanged)
 	bt.validate(c, "converged")
+
+	// ---- converged meshes whose routers run in rarely used modes (lite, stub): modes.go
+	modesStage(c, rand.New(rand.NewSource(c.Seed*7919+10))) // a PRNG of its own: the stages after it keep their histories
 
 	// ---- the same rules over real links (reader, writer, send queues), with bursts of frames from either end
 	rl := &batch{}
